@@ -1,4 +1,5 @@
 import Driver.OpsRange
+import Driver.OpsFields
 open Driver
 
 def dispatch (args : List String) : String :=
@@ -6,6 +7,7 @@ def dispatch (args : List String) : String :=
   | [] => "bad-op"
   | op :: _ =>
     if op.startsWith "range." || op.startsWith "tok." then opRange args
+    else if op.startsWith "field." then opFields args
     else "bad-op"
 
 partial def loop (h : IO.FS.Stream) (out : IO.FS.Stream) : IO Unit := do
